@@ -33,6 +33,10 @@ def build(chk):
     c_findvwLTE(chk)
     from .common import hydro_frame
     hydro_frame(chk)
+    from . import C15_template as T15
+    T15.c_findvwLTE(chk)
+    T15.c_eqWall(chk)
+    T15.c_maxAl(chk)
 
 
 def c_entropy(chk):
